@@ -144,7 +144,7 @@ fn sections(t: CTy, tier: Tier) -> Vec<(String, Section)> {
     let b = || CE::Ext("Q", "B");
     let r = |n: &'static str| CE::Ref(n);
     let bx = Box::new;
-    let mut out: Vec<(String, Section)> = vec![("ext".into(), vec![("A", a())]), ("lit".into(), vec![("A", CE::Lit(2))]), ("ext;ref".into(), vec![("A", a()), ("B", r("A"))])];
+    let mut out: Vec<(String, Section)> = vec![("ext".into(), vec![("A", a())]), ("lit".into(), vec![("A", CE::Lit(2))]), ("lit0".into(), vec![("A", CE::Lit(0))]), ("ext;ref".into(), vec![("A", a()), ("B", r("A"))])];
     if t == CTy::Bool {
         return out;
     }
